@@ -9,6 +9,7 @@ higher coefficients, multi-column and vector right-hand sides, operand kinds UTP
 instances packed pairwise as two directions with different base matrices) is run through algopy and compared with the
 spec's exact rational series.
 """
+import inspect
 import numpy, scipy.linalg
 from common import *
 
@@ -101,6 +102,15 @@ def run(rep, tier, seed):
                 elif base == "expm":
                     got = algopy.expm(*args)
                 gd = got.data
+                # the other public forms of the same function: class level UTPM.f(..) and, where it exists, the method x.f(..)
+                if base != "expm":
+                    forms = [("UTPM.%s" % base, lambda: getattr(UTPM, base)(*args))]
+                    if isinstance(args[0], UTPM) and hasattr(args[0], base) and not isinstance(inspect.getattr_static(UTPM, base), classmethod):
+                        forms.append(("x.%s" % base, lambda: getattr(args[0], base)(*args[1:])))
+                    for fname, call in forms:
+                        alt = call()
+                        if alt.data.shape != gd.shape or not numpy.array_equal(alt.data, gd, equal_nan=True):
+                            rep.violation(sig + ": %s differs from algopy.%s" % (fname, base), det)
                 if kind == "logdet":
                     exp = exp.copy()
                     for p in range(P):
